@@ -45,7 +45,7 @@ else ifeq ($(VARIANT),mon)
   VFLAGS := -O1 -fsanitize=thread -DVF_MON
 else ifeq ($(VARIANT),cov)
   CC := $(GCC)
-  VFLAGS := -O0 --coverage
+  VFLAGS := -O1 --coverage -DVF_COV
 else
   $(error unknown VARIANT $(VARIANT))
 endif
